@@ -23,9 +23,9 @@ RULE = ("case = one script line.  W: window-tree / restack-queue lifecycle scrip
         "distinct = (script kind, verdict, set of call kinds, #windows, handlers present / copy-out kind x fit class).")
 ASSUMPTIONS = [
     "PARTIAL by nature: memory safety of the C is a run-time fact observed by the sanitizers on the explored histories; "
-    "the theorems are about the heap-level ownership model of the repaired window.c: event-free histories (key/mouse "
-    "dispatch with handlers is modelled and tested, not proved), under the model-side client contract client_okb (its "
-    "link to the heap-independent discipline wf_client is checked per case by the oracle), termination not proved",
+    "the theorems are about the heap-level ownership model of the repaired window.c and quantify over event-free "
+    "histories accepted by the heap-independent discipline wf_client (key/mouse dispatch with re-entrant handlers is "
+    "modelled and tested, not proved); that enough fuel exists (termination) is not proved",
     "all windows of a script have the same geometry (the pointer structure, not the geometry, is explored)",
     "a single root window per script; the harness holds the only client reference to the terminal",
     "malloc does not fail",
